@@ -174,7 +174,9 @@ Section DrainSafe.
     DP_cn : forall a, get_cn s a <= get_cn s' a;
     DP_item : forall x v, item_at s' x = Some v <-> item_at s x = Some v /\ get_cn s' (fst x) <= snd x;
     DP_arr_nd : NoDup (map fst (arrival s'));
-    DP_arr : forall x, get_cn s' (fst x) <= snd x -> alookup slot_eqb x (arrival s') = alookup slot_eqb x (arrival s)
+    DP_arr : forall x, get_cn s' (fst x) <= snd x -> alookup slot_eqb x (arrival s') = alookup slot_eqb x (arrival s);
+    DP_keep : forall h x, alookup tx_eqb h (hashmap s) = Some x -> get_cn s' (fst x) <= snd x ->
+                alookup tx_eqb h (hashmap s') = Some x
   }.
 
   Lemma drain_safe k : forall s cm B,
@@ -237,6 +239,8 @@ Section DrainSafe.
           -- exact (DP_arr_nd _ _ _ _ DP).
           -- intros x Hx. rewrite (DP_arr _ _ _ _ DP x Hx). unfold s2. rewrite (commit_arrival s1 (snd b) I1), F3; [reflexivity|].
              pose proof (DP_cn _ _ _ _ DP (fst x)) as H2. unfold s2 in H2. rewrite (commit_cn s1 (snd b) I1) in H2. lia.
+          -- intros h x E Hx. apply (DP_keep _ _ _ _ DP); [|exact Hx]. unfold s2. apply (commit_key_keep s1 (snd b) I1); [rewrite F2; exact E|].
+             pose proof (DP_cn _ _ _ _ DP (fst x)) as H2. unfold s2 in H2. rewrite (commit_cn s1 (snd b) I1) in H2. lia.
       + destruct Hob as [Es HB1].
         destruct (IH s1 cm B I1 C1) as [B3 [cme [Ed DP]]].
         * intros a Ha. rewrite Hcn1. apply Hcm. exact Ha.
@@ -255,6 +259,7 @@ Section DrainSafe.
           -- intros x v. rewrite (DP_item _ _ _ _ DP), Hit1. reflexivity.
           -- exact (DP_arr_nd _ _ _ _ DP).
           -- intros x Hx. rewrite (DP_arr _ _ _ _ DP x Hx), F3. reflexivity.
+          -- intros h x E Hx. apply (DP_keep _ _ _ _ DP); [rewrite F2; exact E | exact Hx].
   Qed.
 End DrainSafe.
 
